@@ -14,7 +14,39 @@ def find_expr(fn, pick):
     node = pick(tree)
     if node is None:
         raise LookupError('expression not found in %s' % fn.__qualname__)
+    node = _inline_helpers(node, getattr(inspect.unwrap(fn), '__globals__', {}))
     return node, ast.unparse(node)
+
+
+def _inline_helpers(node, glob, depth=0):
+    """a call of a plain module-level helper whose body is one `return <expr>` (positional parameters only) is replaced by that
+    expression with the arguments substituted: `_get_n_steps(h, self.dt)` with `def _get_n_steps(time_horizon, dt): return ceil(time_horizon / dt + 1)`"""
+    if depth > 3:
+        return node
+
+    class Inl(ast.NodeTransformer):
+        def visit_Call(self, nd):
+            self.generic_visit(nd)
+            if isinstance(nd.func, ast.Name) and not nd.keywords:
+                g = glob.get(nd.func.id)
+                if inspect.isfunction(g) and g.__module__ and g.__module__.startswith('pfhedge'):
+                    try:
+                        fdef = ast.parse(textwrap.dedent(inspect.getsource(g))).body[0]
+                    except (OSError, TypeError, SyntaxError):
+                        return nd
+                    body = [st for st in fdef.body if not (isinstance(st, ast.Expr) and isinstance(getattr(st, 'value', None), ast.Constant) and isinstance(st.value.value, str))]
+                    params = [a.arg for a in fdef.args.args]
+                    if len(body) == 1 and isinstance(body[0], ast.Return) and body[0].value is not None and len(params) == len(nd.args) \
+                            and not fdef.args.vararg and not fdef.args.kwarg and not fdef.args.kwonlyargs:
+                        m = dict(zip(params, nd.args))
+
+                        class Sub(ast.NodeTransformer):
+                            def visit_Name(self, x):
+                                return m[x.id] if (isinstance(x.ctx, ast.Load) and x.id in m) else x
+                        expr = Sub().visit(ast.parse(ast.unparse(body[0].value), mode='eval').body)
+                        return _inline_helpers(expr, g.__globals__, depth + 1)
+            return nd
+    return ast.fix_missing_locations(Inl().visit(ast.parse(ast.unparse(node), mode='eval').body))
 
 
 def _inline_locals(tree, node, depth=0):
